@@ -102,6 +102,9 @@ def cases(seed, tier, shard, nshards):
             configs.append({"mode": "explore", "threads": 2, "calls": 1, "level": "line",
                             "bound": None, "inner": [J, j], "argseed": 100 + j, "exhaustive": True})
     mine = [c for i, c in enumerate(configs) if i % nshards == shard]
+    if thorough and shard == nshards - 1:
+        # DESIGN 6.8: the repository's own tests as a workload, hy.gensym under an icontract postcondition
+        yield {"mode": "repo-tests-under-contracts"}
     i = 0
     while True:
         # alternate: one enumerated-schedule config, then two injected/free runs
@@ -181,6 +184,15 @@ def run_case(case):
     from hv.sched import Controller
     mode = case["mode"]
     classes = [f"mode:{mode}"]
+    if mode == "repo-tests-under-contracts":
+        from hv.contracts import run_repo_tests
+        d = run_repo_tests()
+        n = d.get("evaluations", {}).get("gensym", 0)
+        if "error" in d or not d.get("installed") or n == 0:
+            return {"ok": None, "classes": classes + ["contract-not-evaluated"]}
+        bad = [v["what"] for v in d.get("violations", []) if v["property"] == ID]
+        return {"ok": not bad, "why": " | ".join(bad[:3]) or None, "nontrivial": False, "classes": classes,
+                "events": n, "n": 1}
     if mode == "free":
         old = sys.getswitchinterval()
         sys.setswitchinterval(1e-6)
